@@ -81,6 +81,8 @@ _NOTES = {
  'C15': ('numStates = 1 + number of distinct non-empty prefixes of reportable patterns; every state reachable at distinct in-range indices; num_elements >= num_states', 'heap_bytes formula uses measured size_of constants'),
  'C16': ('printed iff an occurrence exists; text unchanged; highlighted bytes = bytes covered by an occurrence', 'clap, I/O, termcolor exercised via both binaries, not modelled'),
 }
+for _k in ('C01', 'C02', 'C03', 'C04', 'C05', 'C07', 'C11', 'C13', 'C15'):
+    PROPS[_k]['extra_modules'] = ['Daac.Props.Alarms']   # evaluated invariants never false-alarm on model-built tables
 for _k, (_s, _r) in _NOTES.items():
     PROPS[_k]['statement'] = _s
     PROPS[_k]['residue'] = _r
